@@ -188,6 +188,6 @@ def replay(ctx: Ctx, path: str) -> int:
     v = disc.run_discovery(plan, tcp_devices=tcp)
     v.pop("devices", None)
     for i, clause in ctx.validate_vectors("Trace_Disc", [v]):
-        if clause.startswith(ctx.pid):
+        if ctx.pid in clause.split(":")[0]:
             ctx.violation("replayed discovery run", clause, c)
     return ctx.finish(rule="replay of one recorded discovery run")
